@@ -1603,7 +1603,13 @@ where
             AttributeAction::SetVr(new_vr) => {
                 if let Some(e) = self.entries.remove(&tag) {
                     let (header, value) = e.into_parts();
-                    let e = DataElement::new(header.tag, new_vr, value);
+                    // the VR of data set sequences and pixel data fragment sequences
+                    // is dictated by the value, so the request is ignored for them
+                    let vr = match value {
+                        Value::Primitive(_) => new_vr,
+                        Value::Sequence(_) | Value::PixelSequence(_) => header.vr,
+                    };
+                    let e = DataElement::new(header.tag, vr, value);
                     self.put(e);
                 } else {
                     self.put(DataElement::empty(tag, new_vr));
